@@ -11,7 +11,7 @@ from sa.report import Ctx
 
 from .common import generic_sweeps
 
-from .sat_common import SatRoles, _enclosing_block, check_add_sites, check_binary_add, check_assumption_assertion, check_analysis, check_assign, check_backtrack, check_bcp, check_input_copy, check_main_loop, check_heap_flags, check_variable_universe
+from .sat_common import SatRoles, _enclosing_block, check_add_sites, check_binary_add, check_binary_clear, check_assumption_assertion, check_analysis, check_assign, check_backtrack, check_bcp, check_input_copy, check_main_loop, check_heap_flags, check_variable_universe
 
 EXPLANATION = (
     "Decides structural necessary conditions of 'every returned assignment satisfies every clause / agrees with "
@@ -32,6 +32,7 @@ def run(ctx: Ctx):
     f = roles.f
     ctx.step(check_add_sites, roles, "C01-O3")
     ctx.step(check_binary_add, "C01-O3")
+    ctx.step(check_binary_clear, "C01-O11")
     ctx.step(check_backtrack, roles, "C01-O2")
     ctx.step(check_blocking, roles)
     ctx.step(check_unassign_heap, roles)
@@ -373,7 +374,13 @@ def _t_binary_add_skips_tautology(tree):
     g.body.insert(0, M.stmts("if lit_a == -lit_b:\n    return")[0])
 
 
+def _v_clear_learned_by_literal(tree):
+    g = M.find_func(tree, "BinaryImplications.clear_learned")
+    g.body = M.stmts("for lst in (*self.pos, *self.neg):\n    lst[:] = [entry for entry in lst if entry[0] < original_count]")
+
+
 VARIANTS = [
+    M.Variant("clear_learned filters the entries by their literal instead of their clause index (seed C01-U)", SAT, _v_clear_learned_by_literal, "C01-O11"),
     M.Variant("BinaryImplications.add drops every pair over one variable, [x, x] included (seed C01-O)", SAT, _v_binary_add_skips_same_variable, "C01-O3"),
     M.Variant("twin: BinaryImplications.add drops the tautology (x, -x) only", SAT, _t_binary_add_skips_tautology, None),
     M.Variant("the empty-universe shortcut is taken before the assumed variables are counted (seed C01-M)", SAT, _v_empty_universe_before_assumptions, "C01-O8"),
